@@ -68,16 +68,52 @@ func (t *c15Tree) files() map[string]string {
 			if f.Ignored != "" {
 				// poison: must never run; would also break the package if it were included
 				fmt.Fprintf(&b, "import \"nonexistent/zz%d\"\n\nfunc poison%d() int {\n\tprintln(\"RUN\", %q, %q, \"var\")\n\treturn 1\n}\n\nvar P%d = poison%d()\n", fi, fi, p.Path, f.Name, fi, fi)
+				if (fi+len(p.Path))%2 == 0 {
+					// host-only Go that the script language cannot even parse: an excluded file is not read at all
+					fmt.Fprintf(&b, "\nfunc worker%d(ch chan int, done chan<- bool) {\n\tgo func() { ch <- 1 }()\n\tselect {\n\tcase v := <-ch:\n\t\t_ = v\n\t}\n}\n\nfunc Map%d[T any](xs []T) []T { return xs }\n", fi, fi)
+				}
 				out[p.Dir+"/"+f.Name] = b.String()
 				continue
 			}
-			// imports are spread over the files: file i gets every import (Go needs them where used)
-			for _, im := range p.Imports {
-				fmt.Fprintf(&b, "import %q\n", im)
+			// imports are spread over the files: file i gets every import (Go needs them where used), in one
+			// of five spellings; in the last one the first script import is a blank import (initialised, not named)
+			style := (fi + len(p.Path)) % 5
+			blank := ""
+			if style == 4 && len(scriptImps) > 0 {
+				blank = scriptImps[0]
+			}
+			last := func(im string) string { return im[strings.LastIndex(im, "/")+1:] }
+			switch style {
+			case 0:
+				for _, im := range p.Imports {
+					fmt.Fprintf(&b, "import %q\n", im)
+				}
+			case 1:
+				for _, im := range p.Imports {
+					fmt.Fprintf(&b, "import %s %q\n", last(im), im)
+				}
+			default:
+				if len(p.Imports) > 0 {
+					b.WriteString("import (\n")
+					for _, im := range p.Imports {
+						switch {
+						case im == blank:
+							fmt.Fprintf(&b, "\t_ %q\n", im)
+						case style == 3:
+							fmt.Fprintf(&b, "\t%s %q\n", last(im), im)
+						default:
+							fmt.Fprintf(&b, "\t%q\n", im)
+						}
+					}
+					b.WriteString(")\n")
+				}
 			}
 			b.WriteString("\n")
 			args := ""
 			for _, im := range scriptImps {
+				if im == blank {
+					continue
+				}
 				q := t.pkg(im)
 				args += ", " + q.Name + ".V"
 			}
@@ -215,7 +251,7 @@ func c15RunTree(c *Ctx, t *c15Tree, id string) ([]map[string]any, string) {
 }
 
 func checkC15(c *Ctx) {
-	c.Rule = "graphs = all 512 digraphs (self-imports included) on {main, a, b} in the plain layout + seeded random graphs with 2..12 packages (acyclic with random fan-in/out, and with a planted cycle or conflicting package clauses in a fraction), random file splits/names, vendor/ and shortened placement, _test.go files, //go:build lines in 10 header shapes; distinct_nontrivial = distinct (graph, layout) trees with at least 2 script packages"
+	c.Rule = "graphs = all 512 digraphs (self-imports included) on {main, a, b} in the plain layout + seeded random graphs with 2..12 packages (acyclic with random fan-in/out, and with a planted cycle or conflicting package clauses in a fraction), random file splits/names, vendor/ and shortened placement, _test.go files, //go:build lines in 10 header shapes (excluded files partly contain Go the script language cannot parse), imports spelled in five ways (separate, aliased, grouped, grouped with aliases, grouped with a blank import); distinct_nontrivial = distinct (graph, layout) trees with at least 2 script packages"
 	c.Assumptions = []string{"every marker line is printed by the package's own code at initialisation time (stdout order = execution order, single-threaded VM)", "TLC evaluates Loader.tla as written"}
 	r := rand.New(rand.NewSource(c.Seed))
 
